@@ -33,7 +33,7 @@ int SZ_decompress_args_int16(int16_t** newData, size_t r5, size_t r4, size_t r3,
 	size_t i, tmpSize = 3+MetaDataByteLength+1+sizeof(int16_t)+exe_params->SZ_SIZE_TYPE;
 	unsigned char* szTmpBytes;	
 		
-	if(cmpSize!=4+2+4+MetaDataByteLength && cmpSize!=4+2+8+MetaDataByteLength)
+	if((cmpSize!=4+2+4+MetaDataByteLength && cmpSize!=4+2+8+MetaDataByteLength) || is_lossless_compressed_data(cmpBytes, cmpSize)!=-1) //a wrapped stream can have the size of a constant stream: look at its first bytes too
 	{
 		confparams_dec->losslessCompressor = is_lossless_compressed_data(cmpBytes, cmpSize);
 		if(confparams_dec->losslessCompressor!=-1)
@@ -108,7 +108,7 @@ int SZ_decompress_args_int16(int16_t** newData, size_t r5, size_t r4, size_t r3,
 	}	
 
 	free_TightDataPointStorageI2(tdps);
-	if(confparams_dec->szMode!=SZ_BEST_SPEED && cmpSize!=4+sizeof(int16_t)+exe_params->SZ_SIZE_TYPE+MetaDataByteLength)
+	if(szTmpBytes!=cmpBytes) //an unwrapped copy was made
 		free(szTmpBytes);
 	return status;
 }
